@@ -57,35 +57,51 @@ Definition C03_invalid_falsy : Prop :=
      starts_with s_Program base = false -> isdigit mem = false ->
      lookup (strip_array base) db = Some t -> ti_struct t = true -> lookup (strip_array mem) (ti_members t) = None ->
      parse_tag_request_ex db m s = inr (PE_NoTag (strip_array mem)))
-  (* a parse failure of request k (read): Tag(request, None, None, error), any peer *)
-  /\ (forall c db P reqs r, run_read c db P reqs = Ok r -> forall k e, (k < length reqs)%nat ->
-     parse_request_obj db RwRead (nth k reqs no_req) = inr e ->
-     let t := nth k (results_of r) no_tag in
-     t = mkTag (nth k reqs no_req) VNone None (Some (perr_text e)) /\ truthy t = false /\ perr_text e <> [])
+  (* read: a parse failure of request k, or a packet that cannot be built (an index that is not a number
+     or not a UDINT, an element count that is not a UINT): Tag(request, None, None, error), any peer *)
+  /\ (forall c db P reqs r, run_read c db P reqs = Ok r -> forall k, (k < length reqs)%nat ->
+     let t := nth k (results_of r) no_tag in let rq := nth k reqs no_req in
+     (forall e, parse_request_obj db RwRead rq = inr e ->
+        t = mkTag rq VNone None (Some (perr_text e)) /\ truthy t = false /\ perr_text e <> [])
+     /\ (forall p e, parse_request_obj db RwRead rq = inl p -> read_msg_len c p = Err e ->
+        t = build_err_tag rq err_build e /\ truthy t = false))
+  /\ (forall rq pre e, truthy (build_err_tag rq pre e) = false /\ t_tag (build_err_tag rq pre e) = rq
+        /\ exists txt, t_error (build_err_tag rq pre e) = Some txt /\ txt <> [])
   (* a controller error status (index / count out of range, any injected status) for request k (read) *)
-  /\ (forall c db f reqs r k p, (k < length reqs)%nat ->
+  /\ (forall c db f reqs r k p m, (k < length reqs)%nat ->
      run_read c db (peer_of f (parse_requested_tags db RwRead reqs)) reqs = Ok r ->
-     parse_request_obj db RwRead (nth k reqs no_req) = inl p -> rp_ok (f p) = false ->
+     parse_request_obj db RwRead (nth k reqs no_req) = inl p -> read_msg_len c p = Ok m -> rp_ok (f p) = false ->
      nth k (results_of r) no_tag = mkTag (ReqText (user_tag p)) VNone None (Some (rp_error (f p))))
-  (* write: a parse failure, or a value that cannot be encoded (wrong type, too short, ...), any peer *)
+  (* write: a parse failure; a value that cannot be encoded (wrong type, too short, ...); a packet that
+     cannot be built (bad index / count, a bit of a non-elementary type, a bit number outside the type) — any peer *)
   /\ (forall enc c db P tvs r, run_write enc c db P tvs = Ok r -> forall k, (k < length tvs)%nat ->
      let t := nth k (results_of r) no_tag in let rq := fst (nth k tvs dflt_tv) in
+     let v := snd (nth k tvs dflt_tv) in let multi := uses_multi c (length tvs) in
      (forall e, parse_request_obj db RwWrite rq = inr e ->
         t = mkTag rq VNone None (Some (perr_text e)) /\ truthy t = false /\ perr_text e <> [])
-     /\ (forall p, parse_request_obj db RwWrite rq = inl p -> is_bit_write p = false ->
-           encode_value enc p (snd (nth k tvs dflt_tv)) = None ->
-           t = mkTag rq VNone None (Some (enc_err_text (uses_multi c (length tvs))))
-           /\ truthy t = false /\ enc_err_text (uses_multi c (length tvs)) <> []))
-  (* ... in particular a BOOL-array write that does not start on a DWORD boundary *)
+     /\ (forall p, parse_request_obj db RwWrite rq = inl p -> is_bit_write p = false -> encode_value enc p v = None ->
+           t = mkTag rq VNone None (Some (enc_err_text multi)) /\ truthy t = false /\ enc_err_text multi <> [])
+     /\ (forall p e, parse_request_obj db RwWrite rq = inl p -> is_bit_write p = true -> rmw_build c p = Err e ->
+           t = build_err_tag rq (build_prefix multi) e /\ truthy t = false)
+     /\ (forall p n p' e, parse_request_obj db RwWrite rq = inl p -> is_bit_write p = false ->
+           encode_value enc p v = Some (n, p') -> write_msg_len c p' n = Err e ->
+           t = build_err_tag rq (build_prefix multi) e /\ truthy t = false))
+  (* ... in particular a BOOL-array write that does not start on a DWORD boundary cannot be encoded ... *)
   /\ (forall enc p v, uv_bytes v = None -> is_dword_name (tag_info p) = true ->
      or0 (bit p) mod dword_bits <> 0 -> encode_value enc p v = None)
+  (* ... and a bit write to a non-elementary type, or of a bit number outside the type, cannot be built *)
+  /\ (forall c p,
+     (rmw_mask_size (tag_info p) = None -> exists e, rmw_build c p = Err e)
+     /\ (forall z, rmw_mask_size (tag_info p) = Some z -> is_dword_name (tag_info p) = false -> z * 8 <= or0 (bit p) ->
+           exists e, rmw_build c p = Err e))
   (* write: a controller error status for the service carrying the request *)
-  /\ (forall enc f g m tv p,
-     (is_bit_write p = true -> rp_ok (g (plc_tag p)) = false ->
-        let t := write_outcome enc f g m tv (inl p) in
+  /\ (forall enc f g c m tv p,
+     (is_bit_write p = true -> rmw_build c p = Ok tt -> rp_ok (g (plc_tag p)) = false ->
+        let t := write_outcome enc f g c m tv (inl p) in
         t_tag t = ReqText (user_tag p) /\ t_error t = Some (rp_error (g (plc_tag p))) /\ truthy t = false)
-     /\ (forall n p', is_bit_write p = false -> encode_value enc p (snd tv) = Some (n, p') -> rp_ok (f p' (snd tv)) = false ->
-        let t := write_outcome enc f g m tv (inl p) in
+     /\ (forall n p' z, is_bit_write p = false -> encode_value enc p (snd tv) = Some (n, p') -> write_msg_len c p' n = Ok z ->
+        rp_ok (f p' (snd tv)) = false ->
+        let t := write_outcome enc f g c m tv (inl p) in
         t_tag t = ReqText (user_tag p) /\ t_error t = Some (rp_error (f p' (snd tv))) /\ truthy t = false)).
 
 (* (I) against a peer that answers each service by itself, the result list is a MAP over the requests
@@ -94,14 +110,14 @@ Definition C03_invalid_falsy : Prop :=
 Definition C03_isolation : Prop :=
   (forall c db f reqs r,
      run_read c db (peer_of f (parse_requested_tags db RwRead reqs)) reqs = Ok r ->
-     results_of r = map (fun rq => read_outcome f rq (parse_request_obj db RwRead rq)) reqs)
+     results_of r = map (fun rq => read_outcome c f rq (parse_request_obj db RwRead rq)) reqs)
   /\ (forall c db f reqs r k r1, (k < length reqs)%nat ->
      run_read c db (peer_of f (parse_requested_tags db RwRead reqs)) reqs = Ok r ->
      run_read c db (peer_of f (parse_requested_tags db RwRead [nth k reqs no_req])) [nth k reqs no_req] = Ok r1 ->
      r1 = ROne (nth k (results_of r) no_tag))
   /\ (forall enc f g c db tvs r,
      run_write enc c db (wpeer_of enc f g c db tvs) tvs = Ok r ->
-     results_of r = map (fun tv => write_outcome enc f g (uses_multi c (length tvs)) tv (parse_request_obj db RwWrite (fst tv))) tvs)
+     results_of r = map (fun tv => write_outcome enc f g c (uses_multi c (length tvs)) tv (parse_request_obj db RwWrite (fst tv))) tvs)
   /\ (forall enc f g c db tvs k r r1, (k < length tvs)%nat ->
      run_write enc c db (wpeer_of enc f g c db tvs) tvs = Ok r ->
      run_write enc c db (wpeer_of enc f g c db [nth k tvs dflt_tv]) [nth k tvs dflt_tv] = Ok r1 ->
@@ -110,7 +126,23 @@ Definition C03_isolation : Prop :=
 Definition C03_full : Prop :=
   C03_truthy /\ C03_no_exception /\ C03_shape /\ C03_names /\ C03_invalid_falsy /\ C03_isolation.
 
-(* ------------------------------------------------------------------ the code as it is: refuted *)
+Theorem C03_holds : C03_full.
+Proof.
+  split; [exact tag_truthy_iff|].
+  split; [split; [exact read_no_exception | exact write_no_exception]|].
+  split; [split; [exact read_result_shape | exact write_result_shape]|].
+  split; [split; [exact read_result_names | exact write_result_names]|].
+  split.
+  { split; [exact unknown_tag_is_reported|]. split; [exact unknown_member_is_reported|].
+    split; [exact read_parse_error_falsy|]. split; [exact build_err_tag_falsy|]. split; [exact read_controller_error_falsy|].
+    split; [exact write_invalid_falsy|]. split; [exact misaligned_bool_write|]. split; [exact (rmw_build_rejects (fun _ _ => None))|].
+    exact write_outcome_controller_error. }
+  split; [exact read_results_map|]. split; [exact read_isolation|].
+  split; [exact write_results_map | exact write_isolation].
+Qed.
+Print Assumptions C03_holds.
+
+(* ------------------------------------------------------------------ non-vacuity *)
 Definition db0 : tagdb :=
   [ (zs_of_string "a"%string, TagInfo false (zs_of_string "DINT"%string) (Some 7) [] None 4 0 None []);
     (zs_of_string "arr"%string, TagInfo false (zs_of_string "DINT"%string) (Some 9) [10] None 4 0 None []);
@@ -124,83 +156,18 @@ Definition rq (s : String.string) : request := ReqText (zs_of_string s).
 Definition uv (k : Z) : uval := mkUval k false true None.
 Definition enc0 (p : parsed) (u : uval) : option Z := Some 4.
 
-(* the malformed index "a[" : int("a") raises ValueError while the request path is built, outside any try *)
-Example C03_witness_read : run_read cfg0 db0 peer0 [rq "a"%string; rq "a["%string] = Err (Foreign ValueError).
-Proof. vm_compute. reflexivity. Qed.
+(* the inputs on which the code used to raise (before 937b677 / 5870be8) now fail alone *)
+Example C03_former_witnesses :
+  (exists r, run_read cfg0 db0 peer0 [rq "a"%string; rq "a["%string; rq "arr{70000}"%string; rq "arr[-1]"%string] = Ok r
+      /\ map truthy (results_of r) = [true; false; false; false])
+  /\ (exists r, run_write enc0 cfg0 db0 peer0 [(rq "a"%string, uv 0); (rq "s.3"%string, uv 1); (rq "a.99"%string, uv 2); (rq "a.40"%string, uv 3); (rq "a.3"%string, uv 4)] = Ok r
+      /\ map truthy (results_of r) = [true; false; false; false; true])
+  /\ (exists r, run_write enc0 (mkCfg 4000 true true) db0 peer0 [(rq "a.1"%string, uv 0); (rq "a.2"%string, uv 1)] = Ok r
+      /\ map truthy (results_of r) = [true; true]).
+Proof. repeat split; eexists; split; vm_compute; reflexivity. Qed.
 
-Theorem C03_full_refuted : ~ C03_full.
-Proof.
-  intros [_ [[HR _] _]]. destruct (HR cfg0 db0 peer0 [rq "a"%string; rq "a["%string]) as [r Hr].
-  rewrite C03_witness_read in Hr. discriminate.
-Qed.
-Print Assumptions C03_full_refuted.
-
-(* one witness per excluded input class *)
-Example C03_witness_count : run_read cfg0 db0 peer0 [rq "arr{70000}"%string] = Err DataError.
-Proof. vm_compute. reflexivity. Qed.
-Example C03_witness_struct_bit : run_write enc0 cfg0 db0 peer0 [(rq "a"%string, uv 0); (rq "s.3"%string, uv 1)] = Err (Foreign AttributeError).
-Proof. vm_compute. reflexivity. Qed.
-Example C03_witness_bit_range : run_write enc0 cfg0 db0 peer0 [(rq "a.99"%string, uv 0)] = Err DataError.
-Proof. vm_compute. reflexivity. Qed.
-
-(* ------------------------------------------------------------------ the exact guards *)
-(* read: some valid request's packet cannot be built (index text that is not an integer, an index that
-   no logical segment can hold, an element count outside 0..65535) *)
-Definition C03_guard_read (c : cfg) (db : tagdb) (reqs : list request) : bool := read_guard c db reqs.
-(* write: the same for write packets, a bit write to a tag whose type is not elementary, or a bit number
-   beyond 63 written with a true value *)
-Definition C03_guard_write (enc : parsed -> uval -> option Z) (c : cfg) (db : tagdb) (tvs : list (request * uval)) : bool :=
-  write_guard enc c db tvs.
-
-Example C03_guard_witnesses :
-  C03_guard_read cfg0 db0 [rq "a"%string; rq "a["%string] = true /\ C03_guard_read cfg0 db0 [rq "arr{70000}"%string] = true
-  /\ C03_guard_write enc0 cfg0 db0 [(rq "a"%string, uv 0); (rq "s.3"%string, uv 1)] = true
-  /\ C03_guard_write enc0 cfg0 db0 [(rq "a.99"%string, uv 0)] = true
-  /\ C03_guard_write enc0 (mkCfg 4000 true true) db0 [(rq "a.1"%string, uv 0); (rq "a.2"%string, uv 1)] = false
-  /\ C03_guard_read cfg0 db0 [rq "a"%string; rq "nosuch"%string; rq "arr[3]{2}"%string; rq "a"%string; rq "arr[99]"%string] = false
-  /\ C03_guard_write enc0 cfg0 db0 [(rq "a"%string, uv 0); (rq "a.3"%string, uv 1); (rq "nosuch"%string, uv 2); (rq "a.5"%string, uv 3)] = false.
-Proof. vm_compute. repeat split; reflexivity. Qed.
-
-(* the guard is exact for reads: inside it read() raises *)
-Theorem C03_guard_read_exact : forall c db P reqs, C03_guard_read c db reqs = true -> exists e, run_read c db P reqs = Err e.
-Proof. exact read_exception_iff_guard. Qed.
-Print Assumptions C03_guard_read_exact.
-Theorem C03_guard_write_exact : forall enc c db P tvs, C03_guard_write enc c db tvs = true -> exists e, run_write enc c db P tvs = Err e.
-Proof. exact write_guard_raises. Qed.
-Print Assumptions C03_guard_write_exact.
-
-Definition C03_no_exception_guarded : Prop :=
-  (forall c db P reqs, C03_guard_read c db reqs = false -> exists r, run_read c db P reqs = Ok r)
-  /\ (forall enc c db P tvs, C03_guard_write enc c db tvs = false -> exists r, run_write enc c db P tvs = Ok r).
-
-Theorem C03_guarded :
-  C03_truthy /\ C03_no_exception_guarded /\ C03_shape /\ C03_names /\ C03_invalid_falsy /\ C03_isolation.
-Proof.
-  split; [exact tag_truthy_iff|].
-  split; [split; [exact read_no_exception | exact write_no_exception]|].
-  split; [split; [exact read_result_shape | exact write_result_shape]|].
-  split; [split; [exact read_result_names | exact write_result_names]|].
-  split.
-  { split; [exact unknown_tag_is_reported|]. split; [exact unknown_member_is_reported|].
-    split; [exact read_parse_error_falsy|]. split; [exact read_controller_error_falsy|].
-    split; [exact write_invalid_falsy|]. split; [exact misaligned_bool_write|]. exact write_outcome_controller_error. }
-  split; [exact read_results_map|]. split; [exact read_isolation|]. split.
-  - intros enc f g c db tvs r H.
-    destruct (Bool.bool_dec (write_guard enc c db tvs) false) as [G|G].
-    + destruct (write_results_map enc f g c db tvs G) as [r' [H' E]]. rewrite H in H'. injection H' as <-. exact E.
-    + exfalso. apply Bool.not_false_is_true in G. revert H G. apply write_ok_guard.
-  - intros enc f g c db tvs k r r1 Hk H H1.
-    assert (G : write_guard enc c db tvs = false).
-    { destruct (write_guard enc c db tvs) eqn:E; [|reflexivity]. exfalso. exact (write_ok_guard _ _ _ _ _ _ H E). }
-    assert (G1 : write_guard enc c db [nth k tvs dflt_tv] = false).
-    { destruct (write_guard enc c db [nth k tvs dflt_tv]) eqn:E; [|reflexivity]. exfalso. exact (write_ok_guard _ _ _ _ _ _ H1 E). }
-    destruct (write_isolation enc f g c db tvs k Hk G G1) as [r' [r1' [t1 [A [B [C D]]]]]].
-    rewrite H in A. rewrite H1 in B. injection A as <-. injection B as <-. exists t1. split; [exact C | exact D].
-Qed.
-Print Assumptions C03_guarded.
-
-(* non-vacuity: a mixed read (valid, unknown tag, element range, duplicate, controller error for one
-   index) and a mixed write with two bit writes merged into one read-modify-write *)
+(* a mixed read (valid, unknown tag, element range, duplicate, controller error for one index) and a
+   mixed write with two bit writes merged into one read-modify-write *)
 Definition f0 (p : parsed) : reply :=
   if text_eqb (plc_tag p) (zs_of_string "arr[99]"%string) then mkReply false VNone None (zs_of_string "out of range"%string)
   else mkReply true (if elements p =? 1 then VInt 5 else VList [VInt 1; VInt 2]) (Some (zs_of_string "DINT"%string)) [].
@@ -215,8 +182,8 @@ Definition tvs0 := [(rq "a"%string, uv 0); (rq "a.3"%string, uv 1); (rq "nosuch"
 Example C03_nonvacuous_write :
   let g0 := fun _ : text => mkReply true VNone None [] in
   let fw := fun (_ : parsed) (_ : uval) => mkReply true VNone None [] in
-  write_build enc0 cfg0 (combine (parse_requested_tags db0 RwWrite (map fst tvs0)) (map snd tvs0))
-    = Ok ([PMulti [0]; PRmw (-1) [1; 3]], [WVal (mkParsed (zs_of_string "a"%string) (zs_of_string "a"%string) None 1 (TagInfo false (zs_of_string "DINT"%string) (Some 7) [] None 4 0 None []) None); WBit; WParseErr; WBit])
+  fst (write_build enc0 cfg0 (combine (parse_requested_tags db0 RwWrite (map fst tvs0)) (map snd tvs0)))
+    = [PMulti [0]; PRmw (-1) [1; 3]]
   /\ exists r, run_write enc0 cfg0 db0 (wpeer_of enc0 fw g0 cfg0 db0 tvs0) tvs0 = Ok r
        /\ map truthy (results_of r) = [true; true; false; true].
 Proof. cbn zeta. split; [vm_compute; reflexivity|]. eexists. split; vm_compute; reflexivity. Qed.
